@@ -229,7 +229,13 @@ class PyFatFS(FS):
 
         # Write reference to parent directory
         base.add_subdirectory(newdir)
-        self.fs.update_directory_entry(base)
+        try:
+            self.fs.update_directory_entry(base)
+        except PyFATException:
+            # Parent directory could not be written (i.e. no space left),
+            # do not keep an entry that only exists in memory
+            self.__forget_dir_entry(base, newdir)
+            raise
 
         # Flush FAT(s) to disk
         self.fs.flush_fat()
@@ -309,12 +315,30 @@ class PyFatFS(FS):
 
         # Write parent directory
         base.add_subdirectory(newdir)
-        self.fs.update_directory_entry(base)
+        try:
+            self.fs.update_directory_entry(base)
+        except PyFATException:
+            # Parent directory could not be written (i.e. no space left),
+            # do not keep an entry that only exists in memory
+            self.__forget_dir_entry(base, newdir)
+            self.fs.free_cluster_chain(first_cluster)
+            raise
 
         # Flush FAT(s) to disk
         self.fs.flush_fat()
 
         return SubFS(self, path)
+
+    @staticmethod
+    def __forget_dir_entry(parent_dir: FATDirectoryEntry,
+                           dir_entry: FATDirectoryEntry):
+        """Drop a dentry from its parent directory, in memory only."""
+        entries = parent_dir._get_entries_raw()
+        for i, entry in enumerate(entries):
+            if entry is dir_entry:
+                del entries[i]
+                break
+        dir_entry._parent = None
 
     def removedir(self, path: str):
         """Remove empty directories from the filesystem.
